@@ -114,11 +114,16 @@ def prePartCmp (s o : List Char) : Ordering :=
     | some _, none => .gt
     | some oi, some si => if si > oi then .gt else .lt
 
-/-- The loop of `comparePrerelease` over the longer of the two part lists. -/
+/-- The rest of the loop of `comparePrerelease` when the receiver has no parts left. -/
+def prePartsRest : List (List Char) → Ordering
+  | [] => .eq
+  | b :: bs => (prePartCmp [] b).then (prePartsRest bs)
+
+/-- The loop of `comparePrerelease` over the longer of the two part lists
+    (a missing part is the empty string). -/
 def prePartsCmp : List (List Char) → List (List Char) → Ordering
-  | [], [] => .eq
+  | [], bs => prePartsRest bs
   | a :: as, [] => (prePartCmp a []).then (prePartsCmp as [])
-  | [], b :: bs => (prePartCmp [] b).then (prePartsCmp [] bs)
   | a :: as, b :: bs => (prePartCmp a b).then (prePartsCmp as bs)
 
 def core (v : SV) : Int × Int × Int := (v.major, v.minor, v.patch)
